@@ -1,6 +1,6 @@
 ----------------------------- MODULE C18Trace -----------------------------
 (* Trace validation for C18.  One line = one call of the real code:
-     [fn, in, out, regs, calls, hasref, refpay, panic]
+     [fn, in, out, regs, calls, hasref, refpay, panic, drift]
    fn = "DataURI"   : out = minify.DataURI(m, in) (directly, or the URL found by an independent
                       tokenizer in the output of the CSS / HTML minifier for a document holding `in`);
                       regs = media types a minifier is registered for, calls = what that minifier
@@ -28,7 +28,7 @@ LineWhy(e) ==
   ELSE DataUriWhy(e.in, e.out, RegSet(e), e.calls)
 Conforms == l <= N => LET w == LineWhy(Trace[l]) IN w = "" \/ Reject(l, w)
 
-Drift(e) == IF e.panic THEN FALSE
+Drift(e) == IF e.panic \/ ~e.drift THEN FALSE              \* drift = this line is to be compared (all lines / a sample in the quick tier)
             ELSE IF e.fn = "Mediatype" THEN e.out # AsIs(e.in)
             ELSE Len(e.regs) = 0 /\ e.out # AsIsNone(e.in)
 DriftInfo == l <= N => (~Drift(Trace[l]) \/ Reject(l, "DRIFT"))
